@@ -26,6 +26,37 @@ taking the address of a variable whose address was not taken before must raise
 silent; nothing may kill the process.  A worker that dies IS a violation.
 Calling a function object obtained before the close is outside the statement
 and is never done.
+
+A configuration is (mode,) or (mode, variant[, "full"]).  Modes: how the library
+object is obtained -- inline / ool (ffi.dlopen(path)), inline-handle / ool-handle
+(ffi.dlopen(<void * handle that was dlopen()ed by C code, here _ctypes>): cffi only
+borrows the handle, l_auto_close / dl_auto_close == 0), inline-none / ool-none
+(ffi.dlopen(None): the global scope, into which a renamed copy of the test library
+was loaded with RTLD_GLOBAL; nothing is ever unmapped there, so a missing
+closed-check is silent and only the must-raise oracle can see it).  Variants
+(families added after the audit of the alphabet, each again enumerated
+exhaustively with the same oracle):
+
+    vars        one more operation, vars(lib) (= lib.__dict__): out-of-line it fetches and caches every
+                function and variable at once; on a closed library it must not hand out a symbol that
+                was not fetched before the close
+    k-<kind>    the letters v and f are bound to other *kinds* of symbols: array, struct, pointer,
+                function pointer, array of unknown length; plain / variadic function; plus a function and
+                a variable that are declared but absent from the library (dlsym fails before the close,
+                must still raise after it), an integer #define (never touches the handle; must not kill
+                the process) and, out-of-line, a non-integer constant (fetched from the library on the
+                first access: fresh after the close it must raise)
+    twin        a second library object (in-line: of a second FFI) on the same file, loader reference
+                count 2: closing the first one any number of times must leave the file mapped and the
+                twin's function callable (the count is decremented exactly once), also when the closed
+                library object is finally deallocated
+    cdef-more   in-line, one FFI per history: ffi.cdef() is extended after the dlopen, before or after
+                the close; the names declared late follow the same rules
+    flags-*     ffi.dlopen(path, RTLD_LAZY | RTLD_GLOBAL) and ffi.dlopen(path, RTLD_NOW | RTLD_NODELETE)
+                (with NODELETE the loader keeps the file mapped: as for dlopen(None), only the oracle sees
+                a missing closed-check)
+
+"full" selects the larger alphabet of a variant (thorough tier).
 """
 import os
 import shutil
@@ -38,41 +69,154 @@ LEVEL = "model_checking"
 META = dict(
     engine="E2-hist", level="model_checking",
     technique="explicit-state search over all histories of attribute fetch / call / variable read / write / addressof / "
-              "dlclose / dir on a really-unloaded private copy of a test library, both ABI modes, crash-contained",
+              "dlclose / dir / vars on a really-unloaded private copy of a test library, both ABI modes, path / borrowed "
+              "handle / dlopen(None), crash-contained",
     text="All histories up to depth 5 over 11 operations on a library with two functions and two globals, in-line and "
-         "out-of-line ABI mode (quick: merging by model state + visible caches beyond depth 2; thorough: no merging up "
-         "to depth 5, plus depth 8 with merging beyond 3); each history dlopen()s its own copy of the shared object so "
-         "the first dlclose unmaps it (verified with RTLD_NOLOAD).  After the close every variable access and every "
-         "fetch of a symbol not fetched before must raise, repeated closes (explicit, and the implicit one when the "
-         "library object is freed) must be harmless, and the process must survive; a dead worker is reported as a "
-         "violation with the journalled history.",
+         "out-of-line ABI mode, opened by path or through a borrowed void* handle (quick: merging by model state + "
+         "visible caches beyond depth 2, the out-of-line borrowed handle to depth 4; thorough: no merging up to depth 5, "
+         "plus depth 8 with merging beyond 3); each history dlopen()s its own copy of the shared object so the first "
+         "dlclose unmaps it (verified with RTLD_NOLOAD).  After the close every variable access and every fetch of a "
+         "symbol not fetched before must raise, repeated closes (explicit, and the implicit one when the library "
+         "object is freed; thorough: probed after every history up to depth 5) must be harmless, and the process must "
+         "survive; a dead worker is reported as a violation with the journalled history.  Further families, each "
+         "enumerated exhaustively with the same oracle (quick depth 3-4, thorough depth 4-6): vars(lib) / lib.__dict__ "
+         "as a fetch-everything operation; five other kinds of global (array, struct, pointer, function pointer, "
+         "array of unknown length) with plain / variadic functions, symbols declared but absent from the library, an "
+         "integer #define and an out-of-line non-integer constant; a twin library object on the same file (reference "
+         "count 2: closing one of them n times must neither unmap the file nor disturb the twin); ffi.cdef() extended "
+         "after the dlopen / after the close (in-line); ffi.dlopen(None); RTLD_LAZY|RTLD_GLOBAL and RTLD_NODELETE.",
     note="calling a function object that was fetched before the close is outside the statement and is not done; what "
-         "lib.f / addressof return for symbols already fetched before the close is not compared")
+         "lib.f / addressof return for symbols already fetched before the close is not compared; whether an integer "
+         "constant is still readable after the close is not compared (only that the process survives)")
 
-FUNCS = ("f", "g")
-VARS = ("v", "w")
-CNAME = {"f": "c37_f", "g": "c37_g", "v": "c37_v", "w": "c37_w"}
 CDEF = "int c37_v; long c37_w; int c37_f(int); long c37_g(long);"
-_CN = frozenset(CNAME.values())
-MODES = ("inline", "ool", "inline-handle")      # inline-handle: ffi.dlopen(<void * handle from a C-level dlopen>)
-WVAL = {"v": 1234, "w": -77}
-PROBE_DEPTH = 3          # histories up to this length get the dealloc-after-close probe (see Sys.close)
+CDEF_KINDS = CDEF + (" long c37_arr[4]; struct c37_s { int a; long b; }; struct c37_s c37_st; int *c37_p; "
+                     "int (*c37_fp)(int); long c37_ua[]; int c37_va(int, ...); "
+                     "int c37_missing(int); int c37_missvar;\n#define C37_IC 42\n")
+CDEF_KINDS_OOL = CDEF_KINDS + "const double c37_k;"      # in-line mode cannot read non-integer constants at all
+CDEF_MORE = "int c37_x; int c37_h(int);"
+
+MODES = ("inline", "ool", "inline-handle", "ool-handle", "inline-none", "ool-none")
+#   inline-handle / ool-handle: ffi.dlopen(<void * handle from a C-level dlopen>)
+BASE_MODES = ("inline", "ool", "inline-handle")           # the modes of the original depth-5 pass
+FUNC_LETTERS = frozenset(("f", "g", "h", "m"))
+VAR_LETTERS = frozenset(("v", "w", "x", "mv"))
+INIT = {"v": 10, "w": 20, "x": 30}
+WVAL = {"v": 1234, "w": -77, "x": 555}
+#   variant -> (variable bound to v, its kind, function bound to f, its kind, the extra op of the quick alphabet)
+KINDS = {
+    "k-arr": ("c37_arr", "arr", "c37_va", "variadic", ("getf", "m")),
+    "k-struct": ("c37_st", "struct", "c37_f", "plain", ("rdi",)),
+    "k-ptr": ("c37_p", "ptr", "c37_va", "variadic", ("rdc",)),          # in-line: ("addr", "mv") instead
+    "k-fnptr": ("c37_fp", "fnptr", "c37_f", "plain", ("rd", "mv")),
+    "k-uarr": ("c37_ua", "uarr", "c37_va", "variadic", ("addr", "f")),
+}
+VARIANTS = ("base", "vars", "twin", "cdef-more", "flags-lg", "flags-nodelete") + tuple(sorted(KINDS))
+PROBE_DEPTH = 3          # default: histories up to this length get the dealloc-after-close probe (see Sys.close)
+_PROBE = [PROBE_DEPTH]
+
+OPS_OPEN = [("getf", "f"), ("getf", "g"), ("call", "f"), ("rd", "v"), ("rd", "w"), ("wr", "v"), ("wr", "w"),
+            ("addr", "v"), ("addr", "f"), ("close",), ("dir",)]
+OPS_CLOSED = [op for op in OPS_OPEN if op[0] != "call"]
+_CORE = [("getf", "f"), ("call", "f"), ("rd", "v"), ("wr", "v"), ("addr", "v"), ("close",)]
 
 _state = {}
 
 
+def _norm(cfg):
+    """(mode,) | (mode, variant) | (mode, variant, 'full')  ->  (mode, variant, full)"""
+    cfg = tuple(cfg)
+    mode = cfg[0]
+    variant = cfg[1] if len(cfg) > 1 else "base"
+    full = len(cfg) > 2 and cfg[2] == "full"
+    if mode not in MODES or variant not in VARIANTS:
+        raise InfraError("unknown configuration %r" % (cfg,))
+    return mode, variant, full
+
+
+def _syms(mode, variant):
+    """letter of the alphabet -> (C name, kind)"""
+    pfx = "c37n_" if mode.endswith("-none") else "c37_"
+    if variant in KINDS:
+        vn, vk, fn, fk, _ = KINDS[variant]
+        return {"v": (vn, vk), "f": (fn, fk), "m": ("c37_missing", "missing"), "mv": ("c37_missvar", "missing")}
+    s = {"f": (pfx + "f", "plain"), "g": (pfx + "g", "plain"), "v": (pfx + "v", "int"), "w": (pfx + "w", "long")}
+    if variant == "cdef-more":
+        s["x"] = ("c37_x", "int")
+        s["h"] = ("c37_h", "plain")
+    return s
+
+
+def _alphabet(mode, variant, full):
+    ool = mode.startswith("ool")
+    if variant == "base":
+        return list(OPS_OPEN)
+    if variant == "vars":
+        if full:
+            return OPS_OPEN + [("vars",)]
+        return [("getf", "f"), ("getf", "g"), ("rd", "v"), ("wr", "v"), ("addr", "v"), ("addr", "f"), ("close",),
+                ("vars",)]
+    if variant in KINDS:
+        if full:
+            return _CORE + [("addr", "f"), ("getf", "m"), ("rd", "mv"), ("addr", "mv"), ("rdi",)] + \
+                ([("rdc",)] if ool else []) + [("dir",)]
+        x = KINDS[variant][4]
+        if x == ("rdc",) and not ool:
+            x = ("addr", "mv")
+        return _CORE + [x]
+    if variant == "twin":
+        return list(OPS_OPEN) if full else list(_CORE)
+    if variant == "cdef-more":
+        ops = [("cdef",), ("getf", "f"), ("rd", "v"), ("close",), ("dir",),
+               ("rd", "x"), ("wr", "x"), ("addr", "x"), ("getf", "h")]
+        if full:
+            ops += [("call", "f"), ("wr", "v"), ("addr", "h")]
+        return ops
+    if variant.startswith("flags-"):
+        return list(OPS_OPEN) if full else list(_CORE)
+    raise InfraError("no alphabet for %r" % (variant,))
+
+
+def _emit_ool(name, cdef):
+    import contextlib
+    import importlib.util
+    import sys
+    import cffi
+    g = cffi.FFI()
+    g.cdef(cdef)
+    g.set_source(name, None)
+    path = os.path.join(build.scratch_shared(), name + ".py")
+    with contextlib.redirect_stdout(sys.stderr):
+        g.emit_python_code(path)
+    spec = importlib.util.spec_from_file_location(name, path)
+    m = importlib.util.module_from_spec(spec)
+    spec.loader.exec_module(m)
+    return m.ffi
+
+
 def _setup():
-    """Driver, before forking: compile the test library once and prepare both FFI front ends."""
+    """Driver, before forking: compile the test library once and prepare the FFI front ends."""
     if _state:
         return
     src = open(os.path.join(build.HARNESS, "c37_testlib.c")).read()
     so = os.path.join(build.scratch_shared(), "c37_testlib.so")
     # a small object (no libc, two load segments): each history maps and unmaps its own copy, and on this
     # machine dlopen+dlclose of a default-linked 15 kB library costs ~2 ms of mostly kernel time
-    build.cc(src, so, flags=["-O1", "-nostdlib", "-Wl,-z,noseparate-code", "-Wl,-z,norelro",
-                             "-Wl,--build-id=none", "-s"])
+    # -Bsymbolic: the library's own references (c37_f -> c37_v) are bound inside the library, whatever else
+    # is in the global scope (the RTLD_GLOBAL family, the global copy for dlopen(None))
+    flags = ["-O1", "-nostdlib", "-Wl,-Bsymbolic", "-Wl,-z,noseparate-code", "-Wl,-z,norelro", "-Wl,--build-id=none",
+             "-s"]
+    build.cc(src, so, flags=flags)
     with open(so, "rb") as f:
         _state["so_bytes"] = f.read()
+    # the same library under other symbol names, loaded once into the global scope: what ffi.dlopen(None) sees.
+    # (Other names, so that the private copies of the other modes never resolve their own references to it.)
+    gso = os.path.join(build.scratch_shared(), "c37n_global.so")
+    build.cc(src.replace("c37_", "c37n_"), gso, flags=flags)
+    import ctypes
+    g = ctypes.CDLL(gso, mode=os.RTLD_NOW | os.RTLD_GLOBAL)
+    _state["global"] = g
+    _state["gvars"] = {"v": ctypes.c_int.in_dll(g, "c37n_v"), "w": ctypes.c_long.in_dll(g, "c37n_w")}
     # where the private copies are written (each is unlinked right after dlopen): memory-backed if possible
     d = None
     if os.path.isdir("/dev/shm") and os.access("/dev/shm", os.W_OK):
@@ -82,25 +226,24 @@ def _setup():
     _state["copydir"] = d or build.scratch_shared()
     import warnings
     import cffi
+    pid = os.getpid()
     with warnings.catch_warnings():
         warnings.simplefilter("ignore")         # "global variable without extern" style warning of cdef()
-        f = cffi.FFI()
-        f.cdef(CDEF)
-        _state["inline"] = f
-        import contextlib
-        import importlib.util
-        import sys
-        name = "_c37_ool_%d" % os.getpid()
-        g = cffi.FFI()
-        g.cdef(CDEF)
-        g.set_source(name, None)
-        path = os.path.join(build.scratch_shared(), name + ".py")
-        with contextlib.redirect_stdout(sys.stderr):
-            g.emit_python_code(path)
-    spec = importlib.util.spec_from_file_location(name, path)
-    m = importlib.util.module_from_spec(spec)
-    spec.loader.exec_module(m)
-    _state["ool"] = m.ffi
+        for key, cdef in (("inline", CDEF), ("inline2", CDEF), ("inline-k", CDEF_KINDS),
+                          ("inline-n", CDEF.replace("c37_", "c37n_"))):
+            f = cffi.FFI()
+            f.cdef(cdef)
+            _state[key] = f
+        _state["ool"] = _emit_ool("_c37_ool_%d" % pid, CDEF)
+        _state["ool-k"] = _emit_ool("_c37_oolk_%d" % pid, CDEF_KINDS_OOL)
+        _state["ool-n"] = _emit_ool("_c37_ooln_%d" % pid, CDEF.replace("c37_", "c37n_"))
+    _state["names"] = {
+        "base": frozenset(("c37_v", "c37_w", "c37_f", "c37_g")),
+        "more": frozenset(("c37_v", "c37_w", "c37_f", "c37_g", "c37_x", "c37_h")),
+        "none": frozenset(("c37n_v", "c37n_w", "c37n_f", "c37n_g")),
+        "kinds": frozenset(("c37_v", "c37_w", "c37_f", "c37_g", "c37_arr", "c37_st", "c37_p", "c37_fp", "c37_ua",
+                            "c37_va", "c37_missing", "c37_missvar", "C37_IC", "c37_k")),
+    }
     _state["n"] = 0
 
 
@@ -133,9 +276,48 @@ def _still_loaded(path):
     return True
 
 
-OPS_OPEN = [("getf", "f"), ("getf", "g"), ("call", "f"), ("rd", "v"), ("rd", "w"), ("wr", "v"), ("wr", "w"),
-            ("addr", "v"), ("addr", "f"), ("close",), ("dir",)]
-OPS_CLOSED = [op for op in OPS_OPEN if op[0] != "call"]
+# ---- what a read of each kind of variable shows, as a plain integer comparable with the model's value -------
+
+def _obs(ffi, kind, r, val, init):
+    if kind in ("int", "long"):
+        return r
+    if kind in ("arr", "uarr"):
+        return r[0]
+    if kind == "struct":
+        return r.a
+    if kind == "ptr":                  # initially it points to a cell holding `init`; written: a fake address
+        return r[0] if val == init else int(ffi.cast("intptr_t", r))
+    if kind == "fnptr":                # initially &c37_f (x -> x + c37_v, c37_v untouched in this variant)
+        return r(3) - 3 if val == init else int(ffi.cast("intptr_t", r))
+    raise InfraError("kind %r" % (kind,))
+
+
+def _obs_addr(ffi, kind, r, val, init):
+    if kind in ("int", "long"):
+        return r[0]
+    if kind in ("arr", "uarr"):        # in-line: the array itself (long[4] / long *); out-of-line: a pointer to it
+        x = r[0]
+        return x if isinstance(x, int) else x[0]
+    if kind == "struct":
+        return r.a
+    return _obs(ffi, kind, r[0], val, init)
+
+
+def _wrval(ffi, kind, n):
+    if kind in ("int", "long"):
+        return n
+    if kind == "arr":
+        return [n, 1, 2, 3]
+    if kind == "uarr":
+        return [n, 1, 2]
+    if kind == "struct":
+        return {"a": n, "b": 5}
+    if kind == "ptr":
+        return ffi.cast("int *", n)
+    if kind == "fnptr":
+        return ffi.cast("int(*)(int)", n)
+    raise InfraError("kind %r" % (kind,))
+
 
 _COUNTS = {}
 _CUR = [None]
@@ -145,9 +327,27 @@ def _flush():
     s = _CUR[0]
     if s is not None:
         if s.last_class is not None:
-            _COUNTS[s.last_class] = _COUNTS.get(s.last_class, 0) + 1
+            k = s.tag + s.last_class
+            _COUNTS[k] = _COUNTS.get(k, 0) + 1
         s.dispose()
     _CUR[0] = None
+
+
+def _count(k, n=1):
+    _COUNTS[k] = _COUNTS.get(k, 0) + n
+
+
+def _prune(ffi, lib):
+    """The in-line FFI keeps every library it ever opened in two private lists; remove ours so that 10^5
+    histories do not accumulate 10^5 mapped libraries."""
+    try:
+        ffi._libraries.remove(lib)
+    except ValueError:
+        pass
+    for k, c in enumerate(ffi._function_caches):
+        if c is lib.__dict__:
+            del ffi._function_caches[k]
+            break
 
 
 class Sys(object):
@@ -155,38 +355,84 @@ class Sys(object):
         _flush()
         _CUR[0] = self
         self.last_class = None
-        self.cfg = cfg
-        (mode,) = cfg
-        self.mode = mode
-        self.ffi = ffi = _state["inline" if mode == "inline-handle" else mode]
-        self.path = path = _private_copy()
-        self.raw_handle = None
-        try:
-            if mode == "inline-handle":
-                import _ctypes
-                # the library is opened by "C code" (here _ctypes); cffi only borrows the handle and must
-                # not close it, but ffi.dlclose(lib) must still make the lib object refuse accesses
-                self.raw_handle = _ctypes.dlopen(path, os.RTLD_NOW)
-                self.lib = ffi.dlopen(ffi.cast("void *", self.raw_handle))
-            else:
-                self.lib = ffi.dlopen(path)
-        finally:
-            os.unlink(path)          # the mapping stays; nothing accumulates in the scratch directory
+        self.cfg = tuple(cfg)
+        self.mode, self.variant, self.full = mode, variant, full = _norm(cfg)
+        self.inline = mode.startswith("inline")
+        fam = "inline" if self.inline else "ool"
+        self.how = "handle" if mode.endswith("-handle") else ("none" if mode.endswith("-none") else "path")
+        # histogram prefix: the original three configurations keep the bare class names
+        self.tag = "" if (variant == "base" and mode in BASE_MODES) else \
+            ("%s: " % (mode if variant == "base" else variant))
+        self.syms = _syms(mode, variant)
+        self.ops = _alphabet(mode, variant, full)
+        if variant in KINDS:
+            self.ffi = ffi = _state[fam + "-k"]
+            self.allnames = _state["names"]["kinds"]
+        elif self.how == "none":
+            self.ffi = ffi = _state[fam + "-n"]
+            self.allnames = _state["names"]["none"]
+        elif variant == "cdef-more":
+            if not self.inline:
+                raise InfraError("cdef-more is an in-line family")
+            import warnings
+            import cffi
+            with warnings.catch_warnings():
+                warnings.simplefilter("ignore")
+                self.ffi = ffi = cffi.FFI()      # one FFI per history: the history changes its declarations
+                ffi.cdef(CDEF)
+            self.allnames = _state["names"]["more"]
+        else:
+            self.ffi = ffi = _state[fam]
+            self.allnames = _state["names"]["base"]
+        self.ffi2 = _state["inline2"] if self.inline else ffi
+        self.flags = 0
+        if variant == "flags-lg":
+            self.flags = ffi.RTLD_LAZY | ffi.RTLD_GLOBAL
+        elif variant == "flags-nodelete":
+            self.flags = ffi.RTLD_NOW | ffi.RTLD_NODELETE
+        self.raw_handle = self.raw_handle2 = None
+        self.lib = self.twin = None
+        self.twin_closed = False
         # model
         self.closed = False
         self.nclose = 0
         self.fetched = set()         # functions fetched while open
         self.addr = set()            # variables whose address was taken while open
-        self.val = {"v": 10, "w": 20}
+        self.val = dict(INIT)
         self.nops = 0
         self.touched = set()         # variables read or written so far (their accessor / address is cached)
         self.dir_done = False        # dir(lib) or any attribute access happened (in-line: accessor table built)
-        self.frozen = None           # (fetched, addr) at the time of the first close
+        self.kfetched = False        # the non-integer constant was read while open (its value is cached)
+        self.extended = None         # cdef-more: None | "open" | "closed" (when the cdef was extended)
+        self.frozen = None           # (fetched, addr, touched, kfetched) at the time of the first close
         self.held = {}               # function objects / pointers obtained while open: kept alive, never used after close
+        if self.how == "none":
+            self.path = None
+            for k, c in _state["gvars"].items():
+                c.value = INIT[k]        # the global copy is never reloaded: reset it (through ctypes, not cffi)
+            self.lib = ffi.dlopen(None)
+        else:
+            self.path = path = _private_copy()
+            try:
+                if self.how == "handle":
+                    import _ctypes
+                    # the library is opened by "C code" (here _ctypes); cffi only borrows the handle and must
+                    # not close it, but ffi.dlclose(lib) must still make the lib object refuse accesses
+                    self.raw_handle = _ctypes.dlopen(path, os.RTLD_NOW)
+                    self.lib = ffi.dlopen(ffi.cast("void *", self.raw_handle))
+                    if variant == "twin":
+                        self.raw_handle2 = _ctypes.dlopen(path, os.RTLD_NOW)      # loader reference count 2
+                        self.twin = self.ffi2.dlopen(self.ffi2.cast("void *", self.raw_handle2))
+                else:
+                    self.lib = ffi.dlopen(path, self.flags) if self.flags else ffi.dlopen(path)
+                    if variant == "twin":
+                        self.twin = self.ffi2.dlopen(path)
+            finally:
+                os.unlink(path)          # the mapping stays; nothing accumulates in the scratch directory
 
-    def dispose(self):
-        """End of this history: drop the library.  The in-line FFI keeps every library it ever opened in two
-        private lists; remove ours so that 10^5 histories do not accumulate 10^5 mapped libraries."""
+    # ---- life cycle ------------------------------------------------------------------------------------
+
+    def _drop_lib(self):
         lib = self.lib
         self.lib = None
         self.held = None
@@ -200,88 +446,184 @@ class Sys(object):
                 except OSError:
                     pass
             self.raw_handle = None
-        if self.mode.startswith("inline") and lib is not None:
-            ffi = self.ffi
-            try:
-                ffi._libraries.remove(lib)
-            except ValueError:
-                pass
-            for k, c in enumerate(ffi._function_caches):
-                if c is lib.__dict__:
-                    del ffi._function_caches[k]
-                    break
+        if self.inline and lib is not None and self.variant != "cdef-more":
+            _prune(self.ffi, lib)
+
+    def _drop_twin(self):
+        twin = self.twin
+        self.twin = None
+        if self.raw_handle2 is not None:
+            import _ctypes
+            if not self.twin_closed:
+                try:
+                    _ctypes.dlclose(self.raw_handle2)
+                except OSError:
+                    pass
+            self.raw_handle2 = None
+        if self.inline and twin is not None:
+            _prune(self.ffi2, twin)
+
+    def dispose(self):
+        """End of this history: drop the library (and its twin)."""
+        self._drop_lib()
+        self._drop_twin()
 
     def enabled(self):
-        return OPS_CLOSED if self.closed else OPS_OPEN
+        ops = self.ops
+        if self.closed:
+            ops = [op for op in ops if op[0] != "call"]
+        if self.variant == "cdef-more":
+            if self.extended:
+                ops = [op for op in ops if op[0] != "cdef"]
+            else:
+                ops = [op for op in ops if len(op) < 2 or op[1] not in ("x", "h")]
+        return ops
 
     def key(self):
         # model state + what can be seen of the implementation's caches without disturbing them
         lib = self.lib
-        if self.mode.startswith("inline"):
-            impl = (tuple(sorted(lib.__dict__)), tuple(sorted(k for k in type(lib).__dict__ if k in _CN)))
+        if self.inline:
+            names = self.allnames
+            impl = (tuple(sorted(lib.__dict__)), tuple(sorted(k for k in type(lib).__dict__ if k in names)))
         else:
             impl = ()        # _cffi_backend.Lib does not expose its cache; the model's sets mirror it
-        return (self.mode, self.closed, min(self.nclose, 2), tuple(sorted(self.fetched)), tuple(sorted(self.addr)),
-                self.val["v"], self.val["w"], self.dir_done, tuple(sorted(self.touched)), impl)
+        return (self.cfg, self.closed, min(self.nclose, 2), tuple(sorted(self.fetched)), tuple(sorted(self.addr)),
+                tuple(sorted(self.val.items())), self.dir_done, tuple(sorted(self.touched)), self.kfetched,
+                self.extended, impl)
 
     def _bad(self, kind, **kw):
-        d = {"kind": kind, "mode": self.mode, "closed": self.closed,
+        d = {"kind": kind, "mode": self.mode, "variant": self.variant, "closed": self.closed,
              "fetched_before_close": sorted(self.frozen[0]) if self.frozen else None}
         d.update(kw)
         return d
 
     def apply(self, op):
         self.nops += 1
-        if op[0] != "close":
-            self.dir_done = True
-        if op[0] in ("rd", "wr"):
+        if op[0] != "close" and not (op[0] in ("vars", "cdef") and self.inline):
+            self.dir_done = True       # (in-line vars(lib) is the plain instance dict: no accessor is built)
+        if op[0] in ("rd", "wr") and self.syms[op[1]][1] != "missing":
             self.touched.add(op[1])
         info = self._apply(op)
         if info is not None:
             info["op"] = list(op)
             info["cfg"] = list(self.cfg)
+            if len(op) > 1:
+                info["sym"] = self.syms[op[1]][1]
         return info
+
+    def _vbase(self):
+        """the value of the C variable c37_v, which the functions add to their argument"""
+        return self.val["v"] if self.syms["v"][1] == "int" else 10
+
+    def _twin_check(self, when):
+        """The twin library object holds its own reference on the same file: whatever was done to the first
+        object, the file is still mapped and the twin still works."""
+        if self.twin is None or self.twin_closed:
+            return None
+        if not _still_loaded(self.path):
+            return self._bad("close-unmapped-library-held-by-twin", when=when, nclose=self.nclose)
+        try:
+            r = self.twin.c37_f(3)
+        except Exception as e:
+            return self._bad("close-disturbed-twin", when=when, nclose=self.nclose, error=repr(e))
+        if r != 3 + self.val["v"]:
+            return self._bad("close-disturbed-twin", when=when, nclose=self.nclose,
+                             what="twin.f(3) = %r, model %r" % (r, 3 + self.val["v"]))
+        _count(self.tag + "twin-alive-after/" + when)
+        return None
+
+    def _declared(self):
+        names = set(c for c, k in self.syms.values())
+        if self.variant == "cdef-more" and not self.extended:
+            names -= set(("c37_x", "c37_h"))
+        return names
 
     def _apply(self, op):
         ffi, lib = self.ffi, self.lib
         name = op[0]
+        L = op[1] if len(op) > 1 else None
+        cname, kind = self.syms[L] if L is not None else (None, None)
         if not self.closed:
             # ---- library open: ordinary semantics.  The statement is about the closed library, but every history
             # ---- opens a fresh private copy, so an operation that fails here can only be the after-effect of an
             # ---- earlier close in this process (e.g. a handle closed twice takes a later library with it):
             # ---- reported under its own kind.
             self.last_class = "open/" + name
+            if kind == "missing":
+                # declared in the cdef, absent from the library: dlsym fails; nothing is cached
+                self.last_class = "open/%s/missing-symbol" % name
+                try:
+                    if name == "getf" or name == "rd":
+                        r = getattr(lib, cname)
+                    elif name == "addr":
+                        r = ffi.addressof(lib, cname)
+                    else:
+                        raise InfraError("op %r on a missing symbol" % (op,))
+                except InfraError:
+                    raise
+                except Exception:
+                    return None
+                return self._bad("open-library-op-failed", what="absent symbol %s resolved to %r" % (cname, r))
             try:
                 if name == "getf":
-                    r = getattr(lib, CNAME[op[1]])
-                    self.held[("f", op[1], len(self.held))] = r
-                    self.fetched.add(op[1])
+                    r = getattr(lib, cname)
+                    self.held[("f", L, len(self.held))] = r
+                    self.fetched.add(L)
                 elif name == "call":
-                    r = lib.c37_f(3)
-                    self.fetched.add("f")
-                    if r != 3 + self.val["v"]:
-                        return self._bad("open-library-op-failed", what="f(3) = %r, model %r" % (r, 3 + self.val["v"]))
-                elif name == "rd":
-                    r = getattr(lib, CNAME[op[1]])
-                    if r != self.val[op[1]]:
-                        return self._bad("open-library-op-failed",
-                                         what="%s reads %r, model %r" % (op[1], r, self.val[op[1]]))
-                elif name == "wr":
-                    setattr(lib, CNAME[op[1]], WVAL[op[1]])
-                    self.val[op[1]] = WVAL[op[1]]
-                elif name == "addr":
-                    r = ffi.addressof(lib, CNAME[op[1]])
-                    self.held[("a", op[1], len(self.held))] = r
-                    if op[1] in VARS:
-                        if r[0] != self.val[op[1]]:
-                            return self._bad("open-library-op-failed", what="*addressof(%s) = %r" % (op[1], r[0]))
-                        self.addr.add(op[1])
+                    if kind == "variadic":
+                        r = getattr(lib, cname)(3, ffi.cast("int", 4))
+                        exp = 3 + 4 + self._vbase()
                     else:
-                        self.fetched.add(op[1])
+                        r = getattr(lib, cname)(3)
+                        exp = 3 + self._vbase()
+                    self.fetched.add(L)
+                    if r != exp:
+                        return self._bad("open-library-op-failed", what="f(3) = %r, model %r" % (r, exp))
+                elif name == "rd":
+                    r = getattr(lib, cname)
+                    if kind not in ("int", "long"):
+                        self.held[("r", L, len(self.held))] = r      # a cdata that points into the library
+                    o = _obs(ffi, kind, r, self.val[L], INIT[L])
+                    if o != self.val[L]:
+                        return self._bad("open-library-op-failed",
+                                         what="%s reads %r, model %r" % (L, o, self.val[L]))
+                elif name == "wr":
+                    setattr(lib, cname, _wrval(ffi, kind, WVAL[L]))
+                    self.val[L] = WVAL[L]
+                elif name == "addr":
+                    r = ffi.addressof(lib, cname)
+                    self.held[("a", L, len(self.held))] = r
+                    if L in VAR_LETTERS:
+                        o = _obs_addr(ffi, kind, r, self.val[L], INIT[L])
+                        if o != self.val[L]:
+                            return self._bad("open-library-op-failed", what="*addressof(%s) = %r" % (L, o))
+                        self.addr.add(L)
+                    else:
+                        self.fetched.add(L)
                 elif name == "dir":
                     r = dir(lib)
-                    if not set(CNAME.values()) <= set(r):
+                    if not self._declared() <= set(r):
                         return self._bad("open-library-op-failed", what="dir(lib) = %r" % (r,))
+                elif name == "vars":
+                    r = vars(lib)
+                    if not self.inline:
+                        # lib_obj.c _lib_dict: every global is fetched (dlsym) and cached now
+                        if not self._declared() <= set(r):
+                            return self._bad("open-library-op-failed", what="vars(lib) = %r" % (sorted(r),))
+                        self.held[("d", len(self.held))] = r
+                        self.fetched |= set(k for k in self.syms if k in FUNC_LETTERS)
+                        self.touched |= set(k for k in self.syms if k in VAR_LETTERS)
+                elif name == "rdi":
+                    r = lib.C37_IC
+                    if r != 42:
+                        return self._bad("open-library-op-failed", what="C37_IC = %r" % (r,))
+                elif name == "rdc":
+                    r = lib.c37_k
+                    if r != 2.5:
+                        return self._bad("open-library-op-failed", what="c37_k = %r" % (r,))
+                    self.kfetched = True
+                elif name == "cdef":
+                    self._cdef_more()
                 elif name == "close":
                     try:
                         ffi.dlclose(lib)
@@ -289,8 +631,19 @@ class Sys(object):
                         return self._bad("first-close-raises", error=repr(e))
                     self.closed = True
                     self.nclose = 1
-                    self.frozen = (frozenset(self.fetched), frozenset(self.addr))
-                    self.last_class = "close/first/" + ("unmapped" if not _still_loaded(self.path) else "still-mapped")
+                    self.frozen = (frozenset(self.fetched), frozenset(self.addr), frozenset(self.touched),
+                                   self.kfetched)
+                    if self.how == "none":
+                        self.last_class = "close/first/global-scope"
+                    else:
+                        mapped = _still_loaded(self.path)
+                        if self.twin is not None:
+                            self.last_class = "close/first/" + ("held-by-twin" if mapped else "unmapped-despite-twin")
+                        elif self.variant == "flags-nodelete":
+                            self.last_class = "close/first/" + ("nodelete-kept" if mapped else "nodelete-unmapped")
+                        else:
+                            self.last_class = "close/first/" + ("unmapped" if not mapped else "still-mapped")
+                    return self._twin_check("first-close")
                 else:
                     raise InfraError("unknown op %r" % (op,))
             except InfraError:
@@ -302,34 +655,67 @@ class Sys(object):
             return None
 
         # ---- library closed ----------------------------------------------------------------------------
-        fetched, addr = self.frozen
+        fetched, addr, touched, kfetched = self.frozen
+        late = ""
+        if L in ("x", "h"):
+            late = "/declared-%s-the-close" % ("before" if self.extended == "open" else "after")
         try:
             if name == "getf":
-                must_raise = op[1] not in fetched
-                self.last_class = "closed/getf/" + ("fresh" if must_raise else "fetched-before")
-                r = getattr(lib, CNAME[op[1]])
+                must_raise = L not in fetched
+                self.last_class = "closed/getf/" + ("absent-symbol" if kind == "missing" else
+                                                    "fresh" if must_raise else "fetched-before") + late
+                r = getattr(lib, cname)
             elif name == "rd":
                 must_raise = True
-                self.last_class = "closed/rd/" + ("addr-taken-before" if op[1] in addr else "plain")
-                r = getattr(lib, CNAME[op[1]])
+                self.last_class = "closed/rd/" + ("absent-symbol" if kind == "missing" else
+                                                  "addr-taken-before" if L in addr else "plain") + late
+                r = getattr(lib, cname)
             elif name == "wr":
                 must_raise = True
-                self.last_class = "closed/wr/" + ("addr-taken-before" if op[1] in addr else "plain")
+                self.last_class = "closed/wr/" + ("addr-taken-before" if L in addr else "plain") + late
                 r = None
-                setattr(lib, CNAME[op[1]], WVAL[op[1]] + 1)
+                setattr(lib, cname, _wrval(ffi, kind, WVAL[L] + 1))
             elif name == "addr":
-                if op[1] in VARS:
-                    must_raise = op[1] not in addr
+                if L in VAR_LETTERS:
+                    must_raise = L not in addr
                 else:
-                    must_raise = op[1] not in fetched
-                self.last_class = "closed/addr-%s/%s" % ("var" if op[1] in VARS else "func",
-                                                         "fresh" if must_raise else "taken-before")
-                r = ffi.addressof(lib, CNAME[op[1]])
+                    must_raise = L not in fetched
+                self.last_class = "closed/addr-%s/%s" % ("var" if L in VAR_LETTERS else "func",
+                                                         "absent-symbol" if kind == "missing" else
+                                                         "fresh" if must_raise else "taken-before") + late
+                r = ffi.addressof(lib, cname)
             elif name == "dir":
                 must_raise = False
                 self.last_class = "closed/dir"
                 r = None
                 dir(lib)
+            elif name == "vars":
+                # vars(lib) may raise or return a dict; what it returns must not contain a symbol that was never
+                # resolved while the library was open (that would be a fetch from the unloaded library)
+                fresh = sorted(c for k, (c, _) in self.syms.items()
+                               if (k in FUNC_LETTERS and k not in fetched) or
+                                  (k in VAR_LETTERS and k not in addr and k not in touched))
+                self.last_class = "closed/vars/" + ("some-symbol-fresh" if fresh else "all-resolved-before")
+                d = vars(lib)
+                got = sorted(c for c in fresh if c in d)
+                if got:
+                    return self._bad("closed-library-access-not-refused", result="vars(lib) contains %r" % (got,))
+                return None
+            elif name == "rdi":
+                must_raise = False         # an integer constant never needs the library; not compared
+                self.last_class = "closed/int-constant"
+                r = lib.C37_IC
+                _count(self.tag + "closed/int-constant/still-readable")
+                r = None
+            elif name == "rdc":
+                must_raise = not kfetched
+                self.last_class = "closed/float-constant/" + ("fresh" if must_raise else "read-before")
+                r = lib.c37_k
+            elif name == "cdef":
+                must_raise = False
+                self.last_class = "closed/cdef-more"
+                r = None
+                self._cdef_more()
             elif name == "close":
                 self.nclose += 1
                 self.last_class = "close/again"
@@ -337,7 +723,7 @@ class Sys(object):
                     ffi.dlclose(lib)
                 except Exception as e:
                     return self._bad("second-close-raises", error=repr(e), nclose=self.nclose)
-                return None
+                return self._twin_check("close-again")
             else:
                 raise InfraError("unknown op %r" % (op,))
         except InfraError:
@@ -350,27 +736,50 @@ class Sys(object):
             self.held[("z", len(self.held))] = r
         return None
 
+    def _cdef_more(self):
+        import warnings
+        self.extended = "closed" if self.closed else "open"      # the model: the names exist from now on
+        with warnings.catch_warnings():
+            warnings.simplefilter("ignore")
+            self.ffi.cdef(CDEF_MORE)
+
     def close(self):
-        """End of a history (short histories only, it costs a full garbage collection): the library object is
-        dropped *after* it was closed explicitly; its deallocation is one more implicit close and must be as
-        harmless as an explicit one.  A probe library opened in between (through _ctypes, not cffi) must survive."""
-        if not self.closed or self.nops > PROBE_DEPTH or self.lib is None:
+        """End of a history.  (1) short histories only (it costs a garbage collection and one more dlopen): the
+        library object is dropped *after* it was closed explicitly; its deallocation is one more implicit close and
+        must be as harmless as an explicit one.  A probe library opened in between (through _ctypes, not cffi) must
+        survive, and so must the twin.  (2) twin configurations: the twin is closed as well; the file goes away."""
+        if not self.closed or self.lib is None:
             return None
-        import _ctypes
-        import gc
-        probe = _private_copy()
-        try:
-            h = _ctypes.dlopen(probe, os.RTLD_NOW)
-        finally:
-            os.unlink(probe)
-        self.dispose()
-        gc.collect()
-        alive = _still_loaded(probe)
-        _COUNTS["dealloc-after-close/probe-" + ("alive" if alive else "gone")] = \
-            _COUNTS.get("dealloc-after-close/probe-" + ("alive" if alive else "gone"), 0) + 1
-        if not alive:
-            return {"kind": "dealloc-after-close-unloaded-another-library", "mode": self.mode, "cfg": list(self.cfg)}
-        _ctypes.dlclose(h)
+        if self.nops <= _PROBE[0] and self.how != "none":
+            import _ctypes
+            import gc
+            probe = _private_copy()
+            try:
+                h = _ctypes.dlopen(probe, os.RTLD_NOW)
+            finally:
+                os.unlink(probe)
+            self._drop_lib()
+            gc.collect()
+            alive = _still_loaded(probe)
+            _count(self.tag + "dealloc-after-close/probe-" + ("alive" if alive else "gone"))
+            if not alive:
+                return {"kind": "dealloc-after-close-unloaded-another-library", "mode": self.mode,
+                        "variant": self.variant, "cfg": list(self.cfg)}
+            _ctypes.dlclose(h)
+            info = self._twin_check("dealloc")
+            if info is not None:
+                info["cfg"] = list(self.cfg)
+                return info
+        if self.twin is not None and not self.twin_closed:
+            try:
+                self.ffi2.dlclose(self.twin)
+            except Exception as e:
+                info = self._bad("twin-close-raises", error=repr(e))
+                info["cfg"] = list(self.cfg)
+                return info
+            self.twin_closed = True
+            # not part of the statement (a close that leaks the mapping refuses accesses just as well): counted only
+            _count(self.tag + "twin-closed-too/" + ("unmapped" if not _still_loaded(self.path) else "still-mapped"))
         return None
 
 
@@ -417,9 +826,17 @@ class MemJournal(object):
 
 
 def _work(item):
-    kind, cfg, prefix, depth, d0 = item
+    kind, cfg, prefix, depth, d0, probe, pname = item
     _COUNTS.clear()
     _CUR[0] = None
+    _PROBE[0] = probe
+    if not _state.get("gc-frozen"):
+        # everything that exists now (interpreter, cffi, the FFI objects) lives as long as this worker: take it
+        # out of the collector's sight, so that the gc.collect() of the dealloc probe only walks young objects
+        import gc
+        gc.collect()
+        gc.freeze()
+        _state["gc-frozen"] = True
     hist._journal = MemJournal(hist._journal_path(item))
     try:
         st = hist.explore(Sys, cfg, depth, d0, prefix, True)
@@ -430,16 +847,16 @@ def _work(item):
     return st, dict(_COUNTS)
 
 
-def run_contained(cfgs, depth, d0, split):
-    """hist.run_parallel, except that the shallow part (histories no longer than `split`) is also executed
-    inside pool workers: for this property a crash at depth 1 or 2 must be contained and reported, not kill
-    the driver.  The prefixes are enumerated in the driver only for configurations whose shallow part ran
-    cleanly in a worker (the driver then repeats executions that are known not to crash)."""
-    total = hist.Stats()
+def run_contained(jobs):
+    """hist.run_parallel for a list of jobs (pass name, cfg, depth, d0, split, probe depth), except that the shallow
+    part (histories no longer than `split`) is also executed inside pool workers: for this property a crash at
+    depth 1 or 2 must be contained and reported, not kill the driver.  The prefixes are enumerated in the driver
+    only for configurations whose shallow part ran cleanly in a worker (the driver then repeats executions that
+    are known not to crash).  Returns ({pass name: Stats}, counts, crashes, samples)."""
+    per = {}
     counts = {}
     crashes = []
     samples = []
-    sd = min(split, depth)
 
     def drain(items):
         done = {}
@@ -452,26 +869,34 @@ def run_contained(cfgs, depth, d0, split):
                 crashes.append((item, r, MemJournal.read(hist._journal_path(item))))
                 continue
             st, cnt = r
-            total.merge(st)
+            per.setdefault(item[6], hist.Stats()).merge(st)
             if st.samples and len(samples) < 64:
                 samples.append(st.samples[-1])
             for k, v in cnt.items():
                 counts[k] = counts.get(k, 0) + v
-            done.setdefault(item[1], set()).update(h for h, info in st.violations)
+            done.setdefault((item[6], item[1]), set()).update(h for h, info in st.violations)
         return done
 
-    done = drain([("shallow", cfg, (), sd, min(d0, sd)) for cfg in cfgs])
-    if depth > sd:
-        items = []
-        for cfg in cfgs:
-            if cfg in done:
-                # these executions just ran cleanly in a worker, so replaying them in the driver is safe
-                for p in hist.prefixes(Sys, cfg, sd):
-                    if not any(p[:k] in done[cfg] for k in range(1, len(p) + 1)):
-                        items.append(("deep", cfg, p, depth, d0))
-        _flush()
+    shallow = []
+    for pname, cfg, depth, d0, split, probe in jobs:
+        sd = min(split, depth)
+        shallow.append(("shallow", cfg, (), sd, min(d0, sd), probe, pname))
+    done = drain(shallow)
+    items = []
+    for pname, cfg, depth, d0, split, probe in jobs:
+        sd = min(split, depth)
+        if depth > sd and (pname, cfg) in done:
+            # these executions just ran cleanly in a worker, so replaying them in the driver is safe
+            bad = done[(pname, cfg)]
+            for p in hist.prefixes(Sys, cfg, sd):
+                if not any(p[:k] in bad for k in range(1, len(p) + 1)):
+                    items.append(("deep", cfg, p, depth, d0, probe, pname))
+    _flush()
+    if items:
+        # large sub-trees first
+        items.sort(key=lambda it: -(it[3] - len(it[2])))
         drain(items)
-    return total, counts, crashes, samples
+    return per, counts, crashes, samples
 
 
 def run(ctx):
@@ -482,45 +907,92 @@ def run(ctx):
         _teardown()
 
 
+def _passes(quick):
+    """(pass name, configurations, depth, d0, length of the prefixes that become worker jobs, probe depth);
+    merging happens inside one job"""
+    io = ("inline", "ool")
+    hh = ("inline-handle", "ool-handle")
+    if quick:
+        # split 0: one worker job per configuration (merging over the whole tree of the configuration)
+        return [
+            ("d5", [(m,) for m in BASE_MODES], 5, 2, 1, 3),
+            ("ool-handle-d4", [("ool-handle",)], 4, 2, 0, 3),
+            ("vars-d4", [(m, "vars") for m in io], 4, 2, 0, 3),
+            ("kinds-d3", [(m, k) for k in sorted(KINDS) for m in io], 3, 2, 0, 3),
+            ("twin-d4", [(m, "twin") for m in io], 4, 2, 0, 3),
+            ("twin-handle-d3", [(m, "twin") for m in hh], 3, 2, 0, 3),
+            ("cdef-more-d4", [("inline", "cdef-more")], 4, 2, 0, 3),
+            ("none-d4", [("inline-none",), ("ool-none",)], 4, 2, 0, 0),
+            ("flags-d3", [(m, v) for v in ("flags-lg", "flags-nodelete") for m in io], 3, 2, 0, 3),
+        ]
+    F = "full"
+    return [
+        ("d5-unmerged", [(m,) for m in BASE_MODES + ("ool-handle",)], 5, 5, 2, 5),
+        ("d8", [(m,) for m in BASE_MODES + ("ool-handle",)], 8, 3, 1, 3),
+        ("vars-d5", [(m, "vars", F) for m in io + hh], 5, 3, 1, 4),
+        ("kinds-d4", [(m, k, F) for k in sorted(KINDS) for m in io], 4, 3, 1, 4),
+        ("kinds-handle-d3", [(m, k, F) for k in sorted(KINDS) for m in hh], 3, 3, 1, 3),
+        ("twin-d5", [(m, "twin", F) for m in io + hh], 5, 3, 1, 4),
+        ("cdef-more-d6", [("inline", "cdef-more", F)], 6, 3, 1, 4),
+        ("none-d6", [("inline-none",), ("ool-none",)], 6, 4, 1, 0),
+        ("flags-lg-d5", [(m, "flags-lg", F) for m in io], 5, 3, 1, 4),
+        ("flags-nodelete-d3", [(m, "flags-nodelete", F) for m in io], 3, 3, 1, 3),
+    ]
+
+
 def _run(ctx):
-    # (name, depth, d0, length of the prefixes that become worker jobs; merging happens inside one job)
-    if ctx.quick:
-        passes = [("d5", 5, 2, 1)]
-    else:
-        passes = [("d5-unmerged", 5, 5, 2), ("d8", 8, 3, 1)]
-    cfgs = [(m,) for m in MODES]
+    passes = _passes(ctx.quick)
+    only = (getattr(ctx, "opts", None) or {}).get("pass")
+    if only:
+        passes = [p for p in passes if p[0] in only.split(",")]
+        if not passes:
+            raise InfraError("no such pass %r" % (only,))
+    jobs = [(pname, cfg, depth, d0, split, probe) for pname, cfgs, depth, d0, split, probe in passes for cfg in cfgs]
+    per, counts, crashes, samples = run_contained(jobs)
     st = hist.Stats()
-    counts, crashes, samples, cov_pass = {}, [], [], {}
-    for pname, depth, d0, split in passes:
-        st1, counts1, crashes1, samples1 = run_contained(cfgs, depth, d0, split)
-        ctx.log("pass %s: depth=%d d0=%d states=%d transitions=%d merged=%d violations=%d crashes=%d" % (
-            pname, depth, d0, st1.states, st1.transitions, st1.merged, len(st1.violations), len(crashes1)))
-        cov_pass[pname] = {"max_depth": depth, "unmerged_depth_d0": d0, "states": st1.states,
+    cov_pass = {}
+    for pname, cfgs, depth, d0, split, probe in passes:
+        st1 = per.get(pname, hist.Stats())
+        ncr = sum(1 for item, cr, last in crashes if item[6] == pname)
+        ctx.log("pass %s: configurations=%d depth=%d d0=%d states=%d transitions=%d merged=%d violations=%d crashes=%d" % (
+            pname, len(cfgs), depth, d0, st1.states, st1.transitions, st1.merged, len(st1.violations), ncr))
+        cov_pass[pname] = {"configurations": [list(c) for c in cfgs], "max_depth": depth, "unmerged_depth_d0": d0,
+                           "dealloc_probe_depth": probe, "states": st1.states,
                            "transitions": st1.transitions, "merged": st1.merged,
                            "by_depth": {str(k): v for k, v in sorted(st1.by_depth.items())}}
+        ctx.count("family/%s/transitions" % pname, st1.transitions)
         st.merge(st1)
         st.violations = st.violations[:200]
-        for k, v in counts1.items():
-            counts[k] = counts.get(k, 0) + v
-        crashes += crashes1
-        samples += samples1
-    d0 = max(p[2] for p in passes)
+    d0 = max(p[3] for p in passes)
     for k, v in sorted(counts.items()):
         ctx.count(k, v)
     if not crashes and not st.violations:
-        if counts.get("close/first/unmapped", 0) == 0 or counts.get("close/first/still-mapped", 0):
-            raise InfraError("the private copy of the test library is not unmapped by dlclose: %r" % (
-                {k: v for k, v in counts.items() if k.startswith("close/")},))
+        bad = {k: v for k, v in counts.items()
+               if k.endswith(("close/first/still-mapped", "close/first/unmapped-despite-twin",
+                              "close/first/nodelete-unmapped"))}
+        if bad or (counts.get("close/first/unmapped", 0) == 0 and any(p[0].startswith("d") for p in passes)):
+            raise InfraError("the private copy of the test library is not unmapped by dlclose (or a held one is): "
+                             "%r" % ({k: v for k, v in counts.items() if "close/first/" in k},))
     for h, info in st.violations:
         ctx.violation(_sig(info), {"history": [list(o) for o in h], "info": info, "cfg": info.get("cfg")})
     for item, cr, last in crashes:
-        mode = item[1][0]
-        ctx.violation({"kind": "crash", "mode": mode},
+        mode, variant, full = _norm(item[1])
+        sig = {"kind": "crash", "mode": mode}
+        if variant != "base":
+            sig["variant"] = variant
+        ctx.violation(sig,
                       {"cfg": list(item[1]), "prefix": [list(o) for o in item[2]], "last_history": last,
                        "how": cr.describe(), "confirmed": cr.confirmed})
     for s in samples:
         ctx.sample({"history": s})
-    nontrivial = sum(v for k, v in counts.items() if k.startswith("closed/") or k == "close/again")
+    nontrivial = sum(v for k, v in counts.items()
+                     if (": " in k and k.split(": ", 1)[1] or k).startswith(("closed/", "close/again"))
+                     and not k.endswith("/still-readable"))
+    alphabets = {}
+    for pname, cfgs, depth, d0_, split, probe in passes:
+        for cfg in cfgs:
+            mode, variant, full = _norm(cfg)
+            alphabets[" ".join(cfg)] = [" ".join(o) for o in _alphabet(mode, variant, full)]
     cov = {
         "states": st.states,
         "transitions": st.transitions,
@@ -533,25 +1005,38 @@ def _run(ctx):
         "replayed_op_applications": st.replayed,
         "modes": list(MODES),
         "alphabet": [list(o) for o in OPS_OPEN],
+        "alphabets": alphabets,
         "by_depth": {str(k): v for k, v in sorted(st.by_depth.items())},
         "ops": dict(sorted(st.op_hist.items())),
         "evaluations": st.transitions,
         "distinct_nontrivial": nontrivial,
-        "rule": "every history of length <= max_depth over the alphabet (call only while open), both ABI modes; never "
-                "merged up to d0, beyond d0 a history whose key() = (model state, visible cache contents of the "
-                "library object) was already reached is not extended; non-trivial = transitions executed on an "
-                "already closed library",
+        "rule": "for every pass (see `passes`: configurations, depth, d0) every history of length <= depth over the "
+                "configuration's alphabet (see `alphabets`; call only while open; the names of a later cdef only after "
+                "it), never merged up to d0, beyond d0 a history whose key() = (configuration, model state, visible "
+                "cache contents of the library object) was already reached is not extended.  Families: the base "
+                "alphabet in the modes inline / ool / inline-handle / ool-handle (borrowed void* handle) / inline-none / "
+                "ool-none (dlopen(None)); vars (vars(lib) fetches everything); k-* (other kinds of symbols: array, "
+                "struct, pointer, function pointer, open array, variadic function, absent symbols, integer and "
+                "non-integer constants); twin (second library object on the same file, reference count 2); cdef-more "
+                "(ffi.cdef extended after dlopen / after close); flags-lg / flags-nodelete (dlopen flags); the "
+                "transitions of each family are in class_histogram family/<pass>/transitions.  "
+                "non-trivial = transitions executed on an already closed library",
     }
     return ctx.finish(cov, [
         "each history dlopen()s a private copy of the test library; the loader reports it unmapped after the first "
-        "dlclose (RTLD_NOLOAD probe through _ctypes, counted in class_histogram close/first/unmapped)",
+        "dlclose (RTLD_NOLOAD probe through _ctypes, counted in class_histogram close/first/unmapped); in the twin "
+        "family it must instead still be mapped (close/first/held-by-twin), with RTLD_NODELETE the loader keeps it, "
+        "and with dlopen(None) nothing is ever unmapped (there only the must-raise oracle applies)",
         "operations on the still-open library are expected to work; a failure is reported under its own kind "
         "(open-library-op-failed): with a fresh private copy per history it can only be the after-effect of an earlier "
         "close in the same process",
         "after the close, lib.f / addressof(lib, x) for symbols already fetched before the close may return or raise "
         "(not compared); function objects and pointers obtained before the close are kept alive but never used",
-        "in in-line mode the FFI object is shared by the histories of one worker process; its private list of opened "
-        "libraries is pruned at the end of each history",
+        "in in-line mode the FFI object is shared by the histories of one worker process (except in the cdef-more "
+        "family: one FFI per history); its private list of opened libraries is pruned at the end of each history",
+        "vars(lib) on a closed library may raise or return; what it returns must not contain a function that was not "
+        "fetched, or a variable that was not resolved, while the library was open",
+        "the statement is silent about integer constants after the close: only process survival is required there",
     ])
 
 
@@ -559,6 +1044,10 @@ def _sig(info):
     s = {"kind": info.get("kind"), "mode": info.get("mode")}
     if info.get("op"):
         s["op"] = info["op"][0]
+    if info.get("variant") not in (None, "base"):
+        s["variant"] = info["variant"]
+        if info.get("sym") and info["sym"] not in ("int", "long", "plain"):
+            s["sym"] = info["sym"]
     return s
 
 
@@ -587,8 +1076,9 @@ def _replay(detail):
         print("replay of journalled history %r in a child process: exit status %r" % (h, p.returncode))
         return 1 if p.returncode != 0 else 0
     cfg = tuple(detail["cfg"])
+    _PROBE[0] = 1 << 30          # a recorded ("<close>",) step is always executed
     s = Sys(cfg)
-    print("mode", cfg[0])
+    print("configuration", cfg)
     for op in detail["history"]:
         op = tuple(op)
         if op == ("<close>",):
